@@ -12,7 +12,7 @@ fn mk<const N: usize>(items: usize, deleted: usize, h: &[u64; K]) -> (TD, St<N>)
     let mut t: TD = HashTable::with_capacity_in(capreq(N), LedgerAlloc);
     let st = fill::<D, _, N>(
         hv::raw_of_table(&mut t),
-        Spec { items, deleted, kind: InvKind::Full, h, distinct: true, id_is_slot: false, layout: None },
+        Spec { items, deleted, kind: InvKind::Full, h, distinct: true, id_is_slot: false, layout: None, concrete_tags: None },
     );
     (t, st)
 }
